@@ -257,4 +257,4 @@ def run(tier, seed):
         v.merge(core.run_shards(shard, PROP, tier, seed, budget_s=40, n_http=8, n_rpc=8, maxlen=80))
     else:
         v.merge(core.run_shards(shard, PROP, tier, seed, budget_s=900, n_http=12, n_rpc=12, maxlen=120))
-    return v.finish(RULE, floor=5000, assumptions=ASSUME)
+    return v.finish(RULE, floor=500, assumptions=ASSUME)
